@@ -5,6 +5,7 @@ package main
 
 import (
 	"fmt"
+	"strings"
 	"go/ast"
 	"go/constant"
 	"go/token"
@@ -32,6 +33,18 @@ func init() {
 	wrap("C11", c11Extra, "R7 (added): the fresh-clock entry Server.serveMsg (deadline = time.Now()+timeout) is used only by the message-born ingress ServeMsg; every raw/strict entry reaches the chain through serveMsgBy with its arrival-anchored deadline.")
 	wrap("C14", c14Extra, "R5 (added): the raw RSA verifier compares the recovered encoding at full modulus width — both ConstantTimeCompare operands have length = the modulus size by construction (a fresh make(size) buffer or FillBytes into one), never the zero-stripped big.Int bytes.")
 	wrap("C02", c02Extra, "R9 (added): the aggressive-NSEC closest encloser is derived from BOTH names of the covering record (shared-suffix count with owner and with next, the larger of the two), as RFC 8198/4035 require.")
+	wrap("C02", c02R10, "R10 (added): the plain NSEC closest encloser keeps the longer of the two shared suffixes (owner / next) — a max-fold decided on the branch structure.")
+	wrap("C06", func(c *Ctx) { runWriterSlotRule(c, "C06-R9") }, "R9 (added): the reused edns wrapper (pool or job-owned slot) has every field reassigned before ch.Next or reset by the deferred cleanup — no cookie/DO/size of the previous request shapes the next reply.")
+	wrap("C10", func(c *Ctx) { runWriterSlotRule(c, "C10-R10") }, "R10 (added): same wrapper-reuse rule as C06-R9, claimed here because a leftover cookie is another client's datum in this client's reply.")
+	wrap("C08", func(c *Ctx) { runSubQueryLineage(c, "C08-R9") }, "R9 (added): a reply (answer or denial) that takes anything from an internal sub-query folds the sub-query's lineage — its delegation leases — into the outer request before returning (same rule as C04-R10).")
+	wrap("C14", c14R6, "R6 (added): oversizedKeyMaterial answers a constant false only for a key whose encoded length is within the limit or after scanning the whole string with the material counter compared against the limit — the size refusal the DS match and the key tag rely on cannot be skipped for wrapped input.")
+	wrap("C15", c15R7, "R7 (added): in packInto the caller's selected OPT is replaced by the rcode-carrying copy wherever that very pointer occurs — the substitution is decided by the type assertion and the pointer identity alone, in every section, as the library's in-place SetExtendedRcode would show it.")
+	wrap("C18", c18R9, "R9 (added): in persist no failed or unchecked write to the temp file (WriteString, a buffered writer's Flush, Sync, Close, or a helper handed the file) can be followed by the rename — the destination is replaced only by a completely written file.")
+	wrap("C20", c20R8, "R8 (added): compileConfig settles the prefix set (including the RFC 6147 §5.2 default) before it reads hasWellKnown() — no store to compiled.prefixes is reachable after that call, so the exclusion list of the well-known prefix is never skipped for a defaulted prefix.")
+	wrap("C09", c09R11, "R11 (added): every place that asks whether a trust anchor is live compares its State with StateValid AND StateMissing together (same operand, same operator, one boolean expression) — RFC 5011 keeps a Missing key trusted, so staging, consumption and publication of revocations agree on the same live set.")
+	wrap("C12", c12R7, "R7 (added): the failover writer starts no fallback exchange for a request tree whose recursion-work ledger has already rejected it — every dnsclient exchange in failover.ResponseWriter.WriteMsg is behind RecursionWorkEnforcementError(ctx) == nil.")
+	wrap("C12", c12R8, "R8 (added): the alias chase in Cache.additionalAnswer re-enters its loop only across `counter > 0` for a counter that is carried round the loop (initialised outside it, decremented inside) — a bound that restarts every hop is no bound.")
+	wrap("C13", c13R9, "R9 (added): Resolver.lookup gives up on a zone's remaining servers only for NXDOMAIN — after a failing reply is recorded, every path to the fallback verdict (which the caller turns into a zone failure) goes round the server loop again or crosses Rcode == NameError.")
 	wrap("C13", c13Extra, "R8 (added): a stored failure is turned into a hit (failureEntry.hit) only behind now.Before(<that entry>.retryAfter) — on the Msg and the wire lookup alike — so suppression ends with the backoff.")
 	wrap("C09", c09Extra, "R10 (added): tombstone precedence is unconditional — in the sweep over the loaded state and in the merge loops, the only conditions that may skip a tombstone check are the entry's own Revoked/Removed marker state.")
 	wrap("C12", c12Extra, "R6 (added): the work ledger follows every resolveState — each construction of a resolveState sets work from the current state's work, the request context's ledger, or the caller-supplied ledger.")
@@ -411,6 +424,32 @@ func c02Extra(c *Ctx) {
 			c.violation("C02-R9", key, instrPos(in), fmt.Sprintf("the closest encloser ignores one name of the covering NSEC (owner used=%v, next used=%v)", hasOwner, hasNext))
 		}
 	}
+}
+
+// C02-R10: the NSEC closest encloser keeps the LONGER of the two shared suffixes.
+func c02R10(c *Ctx) {
+	c.Doc("C02-R10", "closestEncloserFromNSEC: the label count that selects the closest encloser is the MAXIMUM of the suffix shared with the covering NSEC's owner and with its next name (builtin max, compare-and-assign, or helper — decided on the branch structure): taking the shorter one moves the encloser up and the real wildcard below it is never required to be denied")
+	fn := c.fn("C02-R10", "middleware/resolver/dnssec.closestEncloserFromNSEC")
+	hdrName := c.field("C02-R10", "github.com/miekg/dns.RR_Header.Name")
+	next := c.field("C02-R10", "github.com/miekg/dns.NSEC.NextDomain")
+	if fn == nil || hdrName == nil || next == nil {
+		return
+	}
+	countOf := func(fv Pat) Pat {
+		return func(e *Expr) bool {
+			e = strip(e)
+			if e == nil || e.K != ECall {
+				return false
+			}
+			for _, a := range e.Args {
+				if Contains(fv)(a) {
+					return true
+				}
+			}
+			return false
+		}
+	}
+	c.FoldOfTwo("C02-R10", "C02-R10|closestEncloserFromNSEC|max(shared(owner), shared(next))", fn, countOf(FieldIs(hdrName)), countOf(FieldIs(next)), true, "shared-suffix label count")
 }
 
 func c05Extra(c *Ctx) {
@@ -896,5 +935,761 @@ func c11Extra(c *Ctx) {
 		default:
 			c.ok("C11-R7", key, instrPos(s.Instr), "deadline: "+trunc(d.String(), 120))
 		}
+	}
+}
+
+// C13-R9: the per-zone verdict "every server failed" is only reached with servers left
+// untried when the reply was an NXDOMAIN.
+func c13R9(c *Ctx) {
+	const R = "C13-R9"
+	c.Doc(R, "Resolver.lookup: from every point where one server's failing result is recorded (an append that feeds pickFallbackResponse), each path to pickFallbackResponse either re-enters an enclosing loop (next server / next result) or crosses the edge resp.Rcode == NameError — a count of error replies, a level test or any other condition alone never abandons the zone's remaining servers, so a zone failure is recorded only when every server failed")
+	fn := c.fn(R, "middleware/resolver.(*Resolver).lookup")
+	pick := c.fobj(R, "middleware/resolver.pickFallbackResponse")
+	rcodeF := c.field(R, "github.com/miekg/dns.MsgHdr.Rcode")
+	if fn == nil || pick == nil || rcodeF == nil {
+		return
+	}
+	nx := c.P.ConstVal("github.com/miekg/dns.RcodeNameError")
+	if nx == nil {
+		c.unresolved(R, "dns.RcodeNameError", "constant not found")
+		return
+	}
+	nxv, _ := constant.Int64Val(constant.ToInt(nx))
+	picks := instrsWhere(fn, isPlainCallTo(pick))
+	if len(picks) == 0 {
+		c.unresolved(R, "lookup|pickFallbackResponse", "no call found")
+		return
+	}
+	// values handed to pickFallbackResponse
+	fed := map[ssa.Value]bool{}
+	for _, p := range picks {
+		for _, a := range callCommon(p).Args {
+			for _, l := range Origins(Desc(a), nil) {
+				if l.V != nil {
+					fed[l.V] = true
+				}
+			}
+		}
+	}
+	reaches := func(from, to *ssa.BasicBlock) bool {
+		seen := map[*ssa.BasicBlock]bool{}
+		var dfs func(b *ssa.BasicBlock) bool
+		dfs = func(b *ssa.BasicBlock) bool {
+			if b == to {
+				return true
+			}
+			if seen[b] {
+				return false
+			}
+			seen[b] = true
+			for _, s := range b.Succs {
+				if dfs(s) {
+					return true
+				}
+			}
+			return false
+		}
+		for _, s := range from.Succs {
+			if dfs(s) {
+				return true
+			}
+		}
+		return false
+	}
+	n := 0
+	for _, b := range fn.Blocks {
+		for _, in := range b.Instrs {
+			cl, ok := in.(*ssa.Call)
+			if !ok {
+				continue
+			}
+			bi, ok := cl.Call.Value.(*ssa.Builtin)
+			if !ok || bi.Name() != "append" || !fed[cl] {
+				continue
+			}
+			n++
+			// enclosing loop headers: blocks that dominate this one and lie on a cycle with it
+			heads := map[*ssa.BasicBlock]bool{}
+			for _, h := range fn.Blocks {
+				if h != b && h.Dominates(b) && reaches(b, h) {
+					heads[h] = true
+				}
+			}
+			loopBar := Barrier{Name: "back to an enclosing loop", Instr: func(x ssa.Instruction) bool {
+				hb := x.Block()
+				return heads[hb] && len(hb.Instrs) > 0 && hb.Instrs[0] == x
+			}}
+			nxBar := OnCmp("Rcode==NameError", FieldIs(rcodeF), token.EQL, IsConstInt(nxv), true)
+			r := reach([]Point{pointAfter(in)}, []Barrier{loopBar, nxBar}, nil)
+			key := R + "|lookup|failing result → fallback verdict"
+			bad := false
+			for _, t := range r.order {
+				if isPlainCallTo(pick)(t) {
+					bad = true
+					c.violation(R, key, instrPos(in), "after recording a failing result the server loop can be abandoned for the fallback verdict without the reply being an NXDOMAIN: remaining (possibly healthy) servers are never asked and the caller records a zone failure; path "+c.trail(r, t))
+					break
+				}
+			}
+			if !bad {
+				c.ok(R, key, instrPos(in), "the loop is left early only across Rcode == NameError")
+			}
+		}
+	}
+	if n < 3 {
+		c.unresolved(R, "lookup|failure records", fmt.Sprintf("expected the three failure lists (response, config, fatal) to be appended to, found %d", n))
+	}
+}
+
+// C14-R6: the encoded-size refusal is exact for wrapped (CR/LF-carrying) keys too.
+func c14R6(c *Ctx) {
+	const R = "C14-R6"
+	const pkg = "middleware/resolver/dnssec"
+	c.Doc(R, "oversizedKeyMaterial: a constant `return false` is reached only across len(publicKey) <= limit, or across the exit of a loop that runs over the whole string — and in that loop a counter compared `> limit` leads to `return true` and nowhere else; dsDigestMatches and KeyTag rely on this answer before decoding, so a wrapped key with more than maxDSKeyMaterial octets can never match a DS the library would not produce")
+	fn := c.fn(R, pkg+".oversizedKeyMaterial")
+	if fn == nil {
+		return
+	}
+	p0 := func(e *Expr) bool { e = strip(e); return e != nil && e.K == EParam && e.Idx == 0 }
+	anyP := func(e *Expr) bool { return e != nil }
+	retFalse := isReturnWith(0, IsConstBool(false))
+	if len(instrsWhere(fn, retFalse)) == 0 {
+		c.ok(R, R+"|oversizedKeyMaterial|no constant false", fn.Pos(), "the function returns a computed comparison, not a constant false (shape not judged by this rule)")
+		return
+	}
+	within := OnCmp("len(publicKey)<=limit", c14LenOf(p0), token.LEQ, anyP, true)
+	scanned := OnCmp("index ran to len(publicKey)", anyP, token.LSS, c14LenOf(p0), false)
+	rangeDone := OnFalse("range over the string exhausted", func(e *Expr) bool {
+		e = strip(e)
+		return e != nil && e.K == EExtract && e.Idx == 0 && e.X != nil && e.X.K == ERange
+	})
+	c.MustCross(R, fn, "return false", retFalse, within, scanned, rangeDone)
+	// if a scan loop exists, the counter guard inside it must answer true
+	hasScan := len(edgePoints(fn, scanned))+len(edgePoints(fn, rangeDone)) > 0
+	if hasScan {
+		counter := func(e *Expr) bool {
+			e = strip(e)
+			return e != nil && (e.K == EPhi || (e.K == EBin && e.Op == token.ADD))
+		}
+		over := OnCmp("counter>limit", counter, token.GTR, anyP, true)
+		if len(edgePoints(fn, over)) == 0 {
+			c.violation(R, R+"|oversizedKeyMaterial|counter guard", fn.Pos(), "the scan over the key never compares the counted material with the limit: every wrapped key is reported as within bounds")
+		} else {
+			c.AfterEdge(R, fn, "counted material above the limit is not answered with true", over, func(in ssa.Instruction) bool {
+				r, ok := in.(*ssa.Return)
+				return ok && len(r.Results) == 1 && !IsConstBool(true)(Desc(r.Results[0]))
+			})
+		}
+	}
+}
+
+// C15-R7: the selected OPT is shimmed wherever it is referenced.
+func c15R7(c *Ctx) {
+	const R = "C15-R7"
+	c.Doc(R, "packState.packInto: starting at the record's *dns.OPT type assertion, the copy carrying the extended rcode (store to packState.opt) is taken exactly when the assertion holds and the pointer equals the selected OPT, and dns.PackRR is reached directly otherwise — decided as a decision table over those two atoms; any further condition (section index, position) would pack an aliased OPT with the caller's stale TTL where the library packs the rewritten one")
+	fn := c.fn(R, "internal/wire.(*packState).packInto")
+	optF := c.field(R, "internal/wire.packState.opt")
+	packRR := c.fobj(R, "github.com/miekg/dns.PackRR")
+	if fn == nil || optF == nil || packRR == nil {
+		return
+	}
+	n := 0
+	for _, b := range fn.Blocks {
+		for _, in := range b.Instrs {
+			ta, ok := in.(*ssa.TypeAssert)
+			if !ok || !ta.CommaOk {
+				continue
+			}
+			pt, ok := ta.AssertedType.(*types.Pointer)
+			if !ok {
+				continue
+			}
+			nm, ok := pt.Elem().(*types.Named)
+			if !ok || nm.Obj().Name() != "OPT" {
+				continue
+			}
+			n++
+			isOK := func(e *Expr) bool {
+				e = strip(e)
+				return e != nil && e.K == EExtract && e.Idx == 1 && e.X != nil && e.X.V == ssa.Value(ta)
+			}
+			isO := func(e *Expr) bool {
+				e = strip(e)
+				return e != nil && e.K == EExtract && e.Idx == 0 && e.X != nil && e.X.V == ssa.Value(ta)
+			}
+			isSel := func(e *Expr) bool { e = strip(e); return e != nil && e.K == EParam }
+			atoms := []CmpAtom{{Name: "is *dns.OPT", Lhs: isOK, Op: token.ILLEGAL}, {Name: "o == opt", Lhs: isO, Rhs: isSel, Op: token.EQL}}
+			key := R + "|packInto|selected OPT substitution"
+			tab, why := DecisionTable(pointAfter(in), atoms, func(x ssa.Instruction) string {
+				if isFieldStore(x, optF, nil) {
+					return "copy"
+				}
+				if isPlainCallTo(packRR)(x) {
+					return "plain"
+				}
+				return ""
+			})
+			if why != "" {
+				c.violation(R, key, instrPos(in), "the substitution of the selected OPT depends on something other than the type assertion and the pointer identity: "+why)
+				continue
+			}
+			bad := ""
+			for row := range tab {
+				A, B := row&1 != 0, row&2 != 0
+				want := "plain"
+				if A && B {
+					want = "copy"
+				}
+				if tab[row] != want {
+					bad = fmt.Sprintf("is-OPT=%v, same pointer=%v → %s (want %s)", A, B, tab[row], want)
+				}
+			}
+			if bad != "" {
+				c.violation(R, key, instrPos(in), "selected OPT substitution table is wrong: "+bad)
+			} else {
+				c.ok(R, key, instrPos(in), "copy ⇔ (rr is *dns.OPT ∧ rr == selected OPT), in every section")
+			}
+		}
+	}
+	if n == 0 {
+		c.unresolved(R, "packInto|OPT type assertion", "no comma-ok assertion to *dns.OPT found")
+	}
+}
+
+// C18-R9: nothing that failed to reach the temp file is renamed over the destination.
+func c18R9(c *Ctx) {
+	const R = "C18-R9"
+	c.Doc(R, "BlockList.persist: every error-returning call that touches the temp file (the file itself, a writer wrapping it, or a helper handed either) has its error tested, and the error edge cannot reach os.Rename (inside such a helper: cannot reach a nil-error return); the only errors that may go untested are a bufio.Writer's intermediate writes (sticky, reported by the tested Flush) — so a short write (ENOSPC, quota) leaves the previous complete file in place")
+	fn := c.fn(R, "middleware/blocklist.(*BlockList).persist")
+	createTemp := c.fobj(R, "os.CreateTemp")
+	rename := c.fobj(R, "os.Rename")
+	remove := c.fobj(R, "os.Remove")
+	fname := c.fobj(R, "os.(*File).Name")
+	if fn == nil || createTemp == nil || rename == nil || remove == nil || fname == nil {
+		return
+	}
+	errT := types.Universe.Lookup("error").Type()
+	n := 0
+	// scan one function: `touch` says which values are the temp file (or wrap it); `forbidden`
+	// is what an error edge (or a dropped error) must not reach
+	var scan func(f *ssa.Function, touch Pat, forbidden func(ssa.Instruction) bool, what string, depth int)
+	scan = func(f *ssa.Function, touch Pat, forbidden func(ssa.Instruction) bool, what string, depth int) {
+		for _, b := range f.Blocks {
+			for _, in := range b.Instrs {
+				cl, ok := in.(*ssa.Call)
+				if !ok || callIs(&cl.Call, rename, remove, fname, createTemp) {
+					continue
+				}
+				var sig *types.Signature
+				if cl.Call.IsInvoke() {
+					sig, _ = cl.Call.Method.Type().(*types.Signature)
+				} else {
+					sig, _ = cl.Call.Value.Type().Underlying().(*types.Signature)
+				}
+				if sig == nil || sig.Results().Len() == 0 || !types.Identical(sig.Results().At(sig.Results().Len()-1).Type(), errT) {
+					continue
+				}
+				touches := cl.Call.IsInvoke() && touch(Desc(cl.Call.Value))
+				var touchIdx []int
+				for i, a := range cl.Call.Args {
+					if touch(Desc(a)) {
+						touches = true
+						touchIdx = append(touchIdx, i)
+					}
+				}
+				if !touches {
+					continue
+				}
+				n++
+				var errVal ssa.Value = cl
+				if sig.Results().Len() > 1 {
+					errVal = nil
+					if cl.Referrers() != nil {
+						for _, r := range *cl.Referrers() {
+							if ex, ok := r.(*ssa.Extract); ok && ex.Index == sig.Results().Len()-1 {
+								errVal = ex
+							}
+						}
+					}
+				}
+				name := "call"
+				if fo, _, _ := calleeObj(&cl.Call); fo != nil {
+					name = fo.Name()
+				} else if cl.Call.IsInvoke() {
+					name = cl.Call.Method.Name()
+				}
+				// a helper handed the file: its nil-error result must imply every write inside succeeded
+				if h := localHelper(f, &cl.Call); h != nil && depth < 2 && len(touchIdx) > 0 {
+					idxs := touchIdx
+					isParamAt := func(e *Expr) bool {
+						return Contains(func(x *Expr) bool {
+							if x.K != EParam {
+								return false
+							}
+							for _, i := range idxs {
+								if x.Idx == i {
+									return true
+								}
+							}
+							return false
+						})(e)
+					}
+					ri := sig.Results().Len() - 1
+					scan(h, isParamAt, func(x ssa.Instruction) bool {
+						r, ok := x.(*ssa.Return)
+						if !ok || ri >= len(r.Results) {
+							return false
+						}
+						for _, l := range Origins(Desc(r.Results[ri]), nil) {
+							if IsNilConst(l) {
+								return true
+							}
+						}
+						return false
+					}, "helper "+h.Name()+" reports success", depth+1)
+				}
+				key := fmt.Sprintf("%s|%s|%s on the temp file", R, f.Name(), name)
+				var edge Barrier
+				tested := false
+				if errVal != nil {
+					ev := errVal
+					edge = OnTrue(name+" err", func(e *Expr) bool { e = strip(e); return e != nil && e.V == ev })
+					tested = len(edgePoints(f, edge)) > 0
+				}
+				if tested {
+					c.AfterEdge(R, f, name+" failed, yet "+what, edge, forbidden)
+					continue
+				}
+				// returned as the function's own error: the caller tests it
+				if errVal != nil && f != fn {
+					returned := true
+					if errVal.Referrers() != nil {
+						for _, r := range *errVal.Referrers() {
+							if _, ok := r.(*ssa.Return); !ok {
+								if _, isPhi := r.(*ssa.Phi); !isPhi {
+									returned = false
+								}
+							}
+						}
+					}
+					if returned && errVal.Referrers() != nil && len(*errVal.Referrers()) > 0 {
+						c.ok(R, key, instrPos(in), "error handed back to the caller")
+						continue
+					}
+				}
+				sticky := false
+				if fo, _, _ := calleeObj(&cl.Call); fo != nil && fo.Pkg() != nil && fo.Pkg().Path() == "bufio" && methodOn(fo, "Writer") && fo.Name() != "Flush" {
+					sticky = true
+				}
+				r := reach([]Point{pointAfter(in)}, nil, nil)
+				reaches := false
+				for _, t := range r.order {
+					if forbidden(t) {
+						reaches = true
+						break
+					}
+				}
+				switch {
+				case sticky:
+					c.ok(R, key, instrPos(in), "buffered write: the error is sticky and reported by Flush")
+				case reaches:
+					c.violation(R, key, instrPos(in), name+"'s error is dropped, yet "+what+": a short write replaces the previous complete file with a truncated one")
+				default:
+					c.ok(R, key, instrPos(in), "error unchecked on a path that never completes the replacement")
+				}
+			}
+		}
+	}
+	scan(fn, Contains(ResultOf(0, createTemp)), isCallTo(rename), "the temp file is renamed over the destination", 0)
+	if n < 2 {
+		c.unresolved(R, "persist|temp-file operations", fmt.Sprintf("expected writes / Sync / Close on the temp file, found %d", n))
+	}
+}
+
+// C20-R8: the well-known verdict is read from the final prefix set.
+func c20R8(c *Ctx) {
+	const R = "C20-R8"
+	c.Doc(R, "dns64.compileConfig: after compiled.hasWellKnown() has been consulted (it decides whether the IPv4 exclusion ranges of the well-known prefix are loaded) no store to compiled.prefixes is reachable — the defaulted 64:ff9b::/96 is in place before the verdict, so special-use IPv4 addresses are never translated under a prefix that was only defaulted")
+	fn := c.fn(R, "middleware/dns64.compileConfig")
+	hasWK := c.fobj(R, "middleware/dns64.(*compiled).hasWellKnown")
+	prefF := c.field(R, "middleware/dns64.compiled.prefixes")
+	if fn == nil || hasWK == nil || prefF == nil {
+		return
+	}
+	storesPrefixes := func(f *ssa.Function) bool {
+		for _, g := range WithAnons(f) {
+			if len(instrsWhere(g, func(in ssa.Instruction) bool { return in.Parent() == g && isFieldStore(in, prefF, nil) })) > 0 {
+				return true
+			}
+		}
+		return false
+	}
+	closureOf := func(v ssa.Value) *ssa.Function {
+		switch x := v.(type) {
+		case *ssa.MakeClosure:
+			f, _ := x.Fn.(*ssa.Function)
+			return f
+		case *ssa.Function:
+			return x
+		}
+		return nil
+	}
+	deferredStore := false
+	for _, b := range fn.Blocks {
+		for _, in := range b.Instrs {
+			if d, ok := in.(*ssa.Defer); ok {
+				if f := closureOf(d.Call.Value); f != nil && f.Parent() == fn && storesPrefixes(f) {
+					deferredStore = true
+				}
+			}
+		}
+	}
+	c.MustCrossFrom(R, fn, "prefix set changed after the well-known verdict", func(in ssa.Instruction) bool { return in.Parent() == fn && isCallTo(hasWK)(in) }, func(in ssa.Instruction) bool {
+		if in.Parent() != fn {
+			return false
+		}
+		if isFieldStore(in, prefF, nil) {
+			return true
+		}
+		// a closure of compileConfig that rewrites the prefix set, called here — or deferred, i.e. run at every return
+		if cl, ok := in.(*ssa.Call); ok {
+			if f := closureOf(cl.Call.Value); f != nil && f.Parent() == fn && storesPrefixes(f) {
+				return true
+			}
+		}
+		if _, ok := in.(*ssa.Return); ok && deferredStore {
+			return true
+		}
+		if _, ok := in.(*ssa.RunDefers); ok && deferredStore {
+			return true
+		}
+		return false
+	})
+}
+
+// C09-R11: a revocation is honoured from every state in which the key is still published.
+func c09R11(c *Ctx) {
+	const R = "C09-R11"
+	const pkg = "middleware/resolver"
+	c.Doc(R, "revocation covers every live anchor: LIVE is read off the code as the set of State constants S for which the append feeding Resolver.rootKeys is reachable when the entry's State equals S (today Valid and Missing); for each such S, (AutoTA) the X.State = StateRevoked store and (stageRevocationSelfSignatures) the revocationIsSelfSignedWithWork call are reachable when the old anchor's State equals S — path feasibility over the State-equality atoms only, nothing executed. A site that drops one live state leaves a revoked key published")
+	stateF := c.field(R, pkg+".TrustAnchor.State")
+	dnskeyF := c.field(R, pkg+".TrustAnchor.DNSKey")
+	rootKeysF := c.field(R, pkg+".Resolver.rootKeys")
+	auto := c.fn(R, pkg+".(*Resolver).AutoTA")
+	stage := c.fn(R, pkg+".stageRevocationSelfSignatures")
+	selfSigned := c.fobj(R, pkg+".revocationIsSelfSignedWithWork")
+	stT := c.P.TypeName(pkg + ".State")
+	if stateF == nil || dnskeyF == nil || rootKeysF == nil || auto == nil || stage == nil || selfSigned == nil || stT == nil {
+		return
+	}
+	// the State constants
+	type stc struct {
+		name string
+		val  int64
+	}
+	var states []stc
+	if pk := c.P.ByPath[c.P.expand(pkg)]; pk != nil {
+		sc := pk.Types.Scope()
+		for _, nm := range sc.Names() {
+			if k, ok := sc.Lookup(nm).(*types.Const); ok && types.Identical(k.Type(), stT.Type()) {
+				if v, ok := constant.Int64Val(constant.ToInt(k.Val())); ok {
+					states = append(states, stc{nm, v})
+				}
+			}
+		}
+	}
+	if len(states) < 4 {
+		c.unresolved(R, "State constants", fmt.Sprintf("found %d", len(states)))
+		return
+	}
+	// assume(base, S): barriers making every edge infeasible that contradicts <base>.State == S
+	assume := func(base string, S int64) []Barrier {
+		onState := func(e *Expr) bool {
+			e = strip(e)
+			return e != nil && e.K == EField && e.Var == stateF && (base == "" || (e.X != nil && e.X.String() == base))
+		}
+		var bars []Barrier
+		for _, k := range states {
+			if k.val == S {
+				bars = append(bars, OnCmp(fmt.Sprintf("State!=%s", k.name), onState, token.EQL, IsConstInt(k.val), false))
+			} else {
+				bars = append(bars, OnCmp(fmt.Sprintf("State==%s", k.name), onState, token.EQL, IsConstInt(k.val), true))
+			}
+		}
+		return bars
+	}
+	feasible := func(target ssa.Instruction, fn *ssa.Function, base string, S int64) bool {
+		ug, _ := c.unguarded(target, assume(base, S), fn)
+		return ug
+	}
+	// 1. LIVE: appends of <x>.DNSKey that feed a rootKeys store
+	fed := map[ssa.Value]bool{}
+	for _, s := range c.StoreSites(rootKeysF) {
+		if TopLevel(s.Fn) != auto {
+			continue
+		}
+		for _, l := range Origins(Desc(s.Val), func(e *Expr) []int {
+			if x5IsBuiltinCall(e, "append") {
+				return []int{0}
+			}
+			return nil
+		}) {
+			_ = l
+		}
+		Contains(func(x *Expr) bool {
+			if x.V != nil {
+				fed[x.V] = true
+			}
+			return false
+		})(Desc(s.Val))
+	}
+	type feed struct {
+		in   ssa.Instruction
+		base string
+	}
+	var feeds []feed
+	for _, b := range auto.Blocks {
+		for _, in := range b.Instrs {
+			cl, ok := in.(*ssa.Call)
+			if !ok {
+				continue
+			}
+			bi, ok := cl.Call.Value.(*ssa.Builtin)
+			if !ok || bi.Name() != "append" || !fed[cl] || len(cl.Call.Args) < 2 {
+				continue
+			}
+			var base string
+			Contains(func(x *Expr) bool {
+				if x.K == EField && x.Var == dnskeyF && x.X != nil {
+					base = x.X.String()
+				}
+				return false
+			})(Desc(cl.Call.Args[1]))
+			if base != "" {
+				feeds = append(feeds, feed{in, base})
+			}
+		}
+	}
+	if len(feeds) == 0 {
+		c.unresolved(R, "AutoTA|rootKeys feed", "no append of an anchor's DNSKey that flows into Resolver.rootKeys was found")
+		return
+	}
+	var live []stc
+	for _, S := range states {
+		for _, f := range feeds {
+			if feasible(f.in, auto, f.base, S.val) {
+				live = append(live, S)
+				break
+			}
+		}
+	}
+	if len(live) == 0 || len(live) == len(states) {
+		c.undecided(R, R+"|AutoTA|live set", auto.Pos(), fmt.Sprintf("the published-state set could not be read (%d of %d states feasible)", len(live), len(states)))
+		return
+	}
+	var liveNames []string
+	for _, S := range live {
+		liveNames = append(liveNames, S.name)
+	}
+	c.ok(R, R+"|AutoTA|live set", auto.Pos(), "states published into rootKeys: "+strings.Join(liveNames, ", "))
+	// 2. the revocation store in AutoTA
+	var revV int64 = -1
+	for _, S := range states {
+		if S.name == "StateRevoked" {
+			revV = S.val
+		}
+	}
+	nrev := 0
+	for _, in := range instrsWhere(auto, func(in ssa.Instruction) bool { return isFieldStore(in, stateF, IsConstInt(revV)) }) {
+		st := in.(*ssa.Store)
+		fa, ok := st.Addr.(*ssa.FieldAddr)
+		if !ok {
+			continue
+		}
+		base := Desc(fa.X).String()
+		// only revocations decided downstream of a fetched REVOKE bit: the base is compared with live states somewhere
+		guarded := false
+		for _, S := range states {
+			if !feasible(in, in.Parent(), base, S.val) {
+				guarded = true
+			}
+		}
+		if !guarded {
+			continue // an unconditional marker write (migration / tombstone sweep), not the RevBit transition
+		}
+		nrev++
+		for _, S := range live {
+			key := fmt.Sprintf("%s|AutoTA|%s + RevBit → Revoked", R, S.name)
+			if feasible(in, in.Parent(), base, S.val) {
+				c.ok(R, key, instrPos(in), "the revocation transition is reachable from "+S.name)
+			} else {
+				c.violation(R, key, instrPos(in), "an anchor in state "+S.name+" is still published as a trust anchor, yet its accepted revocation is never applied from that state")
+			}
+		}
+	}
+	if nrev == 0 {
+		c.unresolved(R, "AutoTA|revocation store", "no state-guarded X.State = StateRevoked store found")
+	}
+	// 3. staging
+	calls := instrsWhere(stage, isPlainCallTo(selfSigned))
+	if len(calls) == 0 {
+		c.unresolved(R, "stageRevocationSelfSignatures|self-signature check", "no call found")
+	}
+	for _, in := range calls {
+		for _, S := range live {
+			key := fmt.Sprintf("%s|stageRevocationSelfSignatures|%s anchor's revocation is staged", R, S.name)
+			if feasible(in, stage, "", S.val) {
+				c.ok(R, key, instrPos(in), "self-signature verification is reachable for an old anchor in "+S.name)
+			} else {
+				c.violation(R, key, instrPos(in), "the self-signature of a revocation is never verified when the old anchor is in state "+S.name+": the consumer finds no staged verdict and ignores the revocation, the key stays published")
+			}
+		}
+	}
+}
+
+// C12-R7: an over-budget request tree is not rescued by the fallback resolvers.
+func c12R7(c *Ctx) {
+	const R = "C12-R7"
+	c.Doc(R, "failover.(*ResponseWriter).WriteMsg: every dnsclient.(*Client).Exchange (the fallback query) is behind the nil edge of middleware.RecursionWorkEnforcementError(ctx) — once the request tree's ledger latched a rejection (outbound, internal or DNSSEC budget), the client gets the SERVFAIL with its EDE, never an answer obtained by spending more work")
+	fn := c.fn(R, "middleware/failover.(*ResponseWriter).WriteMsg")
+	ex := c.fobj(R, "internal/dnsclient.(*Client).Exchange")
+	enf := c.fobj(R, "middleware.RecursionWorkEnforcementError")
+	if fn == nil || ex == nil || enf == nil {
+		return
+	}
+	c.MustCross(R, fn, "fallback exchange", isCallTo(ex), OnFalse("RecursionWorkEnforcementError(ctx)", CallTo(enf)))
+}
+
+// C12-R8: the chase bound is loop-carried.
+func c12R8(c *Ctx) {
+	const R = "C12-R8"
+	c.Doc(R, "Cache.additionalAnswer: from the internalExchange call every path back to the head of the loop that contains it crosses the true edge of `counter > 0` (or != 0 / >= 1), where counter is loop-carried — a phi merging a constant from outside the loop with its own decrement; a counter re-initialised inside the loop never runs out and an endless chain of distinct alias names is chased until the deadline")
+	fn := c.fn(R, "middleware/cache.(*Cache).additionalAnswer")
+	ie := c.fobj(R, "middleware/cache.(*Cache).internalExchange")
+	if fn == nil || ie == nil {
+		return
+	}
+	var isCounter func(v ssa.Value, d int) bool
+	isCounter = func(v ssa.Value, d int) bool {
+		if d > 6 {
+			return false
+		}
+		switch x := v.(type) {
+		case *ssa.BinOp:
+			if x.Op == token.SUB {
+				if _, ok := x.Y.(*ssa.Const); ok {
+					return isCounter(x.X, d+1)
+				}
+			}
+		case *ssa.Phi:
+			hasConst, hasDec := false, false
+			for _, e := range x.Edges {
+				switch y := e.(type) {
+				case *ssa.Const:
+					hasConst = true
+				case *ssa.BinOp:
+					if y.Op == token.SUB {
+						// the decrement of this very phi (possibly through further phis)
+						seen := map[ssa.Value]bool{}
+						var back func(w ssa.Value) bool
+						back = func(w ssa.Value) bool {
+							if w == ssa.Value(x) {
+								return true
+							}
+							if seen[w] {
+								return false
+							}
+							seen[w] = true
+							switch z := w.(type) {
+							case *ssa.Phi:
+								for _, e2 := range z.Edges {
+									if back(e2) {
+										return true
+									}
+								}
+							case *ssa.BinOp:
+								return back(z.X)
+							}
+							return false
+						}
+						if back(y.X) {
+							hasDec = true
+						}
+					}
+				case *ssa.Phi:
+					if isCounter(y, d+1) {
+						hasDec = true
+					}
+				}
+			}
+			return hasConst && hasDec
+		}
+		return false
+	}
+	counterPat := func(e *Expr) bool { e = strip(e); return e != nil && e.V != nil && isCounter(e.V, 0) }
+	left := []Barrier{
+		OnCmp("counter>0", counterPat, token.GTR, IsConstInt(0), true),
+		OnCmp("counter!=0", counterPat, token.NEQ, IsConstInt(0), true),
+		OnCmp("counter>=1", counterPat, token.GEQ, IsConstInt(1), true),
+	}
+	reachesBlk := func(from, to *ssa.BasicBlock) bool {
+		seen := map[*ssa.BasicBlock]bool{}
+		var dfs func(b *ssa.BasicBlock) bool
+		dfs = func(b *ssa.BasicBlock) bool {
+			if b == to {
+				return true
+			}
+			if seen[b] {
+				return false
+			}
+			seen[b] = true
+			for _, s := range b.Succs {
+				if dfs(s) {
+					return true
+				}
+			}
+			return false
+		}
+		for _, s := range from.Succs {
+			if dfs(s) {
+				return true
+			}
+		}
+		return false
+	}
+	n := 0
+	for _, in := range instrsWhere(fn, isCallTo(ie)) {
+		if in.Parent() != fn {
+			continue
+		}
+		b := in.Block()
+		heads := map[*ssa.BasicBlock]bool{}
+		for _, h := range fn.Blocks {
+			if (h == b || h.Dominates(b)) && reachesBlk(b, h) {
+				heads[h] = true
+			}
+		}
+		key := R + "|additionalAnswer|chase loop bound"
+		if len(heads) == 0 {
+			c.ok(R, key, instrPos(in), "the sub-query is not inside a loop")
+			n++
+			continue
+		}
+		n++
+		r := reach([]Point{pointAfter(in)}, left, nil)
+		bad := false
+		for _, t := range r.order {
+			hb := t.Block()
+			if heads[hb] && hb.Instrs[0] == t {
+				bad = true
+				c.violation(R, key, instrPos(in), "the chase loop is re-entered without crossing `counter > 0` on a loop-carried counter: the hop bound restarts (or is absent), so the work of one alias chase is unbounded; path "+c.trail(r, t))
+				break
+			}
+		}
+		if !bad {
+			c.ok(R, key, instrPos(in), "every way back to the loop head crosses `counter > 0` on a loop-carried counter")
+		}
+	}
+	if n == 0 {
+		c.unresolved(R, "additionalAnswer|internalExchange", "no call found")
 	}
 }
